@@ -20,9 +20,10 @@ NoPl == [k |-> "none", n |-> 0]
 Pl(n) == [k |-> "some", n |-> n]
 Dns(l) == [v |-> "dns", labels |-> l, b |-> <<>>, p |-> 0]
 Ip(b, p) == [v |-> "ip", labels |-> <<>>, b |-> b, p |-> p]
-Ca(pl) == [isCa |-> [k |-> "Ca", pl |-> pl], nbDay |-> Day0, naDay |-> DayEnd, ku |-> <<5, 6>>, eku |-> <<>>, nc |-> NoNc, names |-> <<>>]
+(* frac: the validity dates are given with a sub-second part and a non-UTC offset (the instant of the day boundary stays) *)
+Ca(pl) == [isCa |-> [k |-> "Ca", pl |-> pl], nbDay |-> Day0, naDay |-> DayEnd, ku |-> <<5, 6>>, eku |-> <<>>, nc |-> NoNc, names |-> <<>>, frac |-> FALSE]
 LeafRec == [isCa |-> [k |-> "NoCa", pl |-> NoPl], nbDay |-> Day0, naDay |-> DayEnd, ku |-> <<0>>, eku |-> <<>>, nc |-> NoNc,
-            names |-> <<Dns(<<"www", "example", "test">>)>>]
+            names |-> <<Dns(<<"www", "example", "test">>)>>, frac |-> FALSE]
 Chain(nInter) == <<Ca(NoPl)>> \o [i \in 1..nInter |-> Ca(NoPl)] \o <<LeafRec>>
 
 Case(grp, pos, chain, day, purpose) == [grp |-> grp, pos |-> pos, chain |-> chain, day |-> day, purpose |-> purpose]
@@ -32,11 +33,19 @@ OkCases == { Case("ok", 0, Chain(n), Now, p) : n \in 0..2, p \in {"server", "cli
 IsCaVariants == { [k |-> "NoCa", pl |-> NoPl], [k |-> "ExplicitNoCa", pl |-> NoPl], [k |-> "Ca", pl |-> NoPl], [k |-> "Ca", pl |-> Pl(3)] }
 CaFlagCases == { Case("caflag", pos - 1, [Chain(n) EXCEPT ![pos].isCa = v], Now, "server") :
                    n \in 0..2, pos \in 1..3, v \in IsCaVariants } 
+(* the same without any key usage: a non-CA certificate then has no extension at all *)
+CaFlagBareCases == { Case("caflag", pos - 1, [Chain(n) EXCEPT ![pos].isCa = v, ![pos].ku = <<>>], Now, "server") :
+                       n \in 0..2, pos \in 1..3, v \in IsCaVariants }
 PathLenCases == { Case("pathlen", pos - 1, [Chain(n) EXCEPT ![pos].isCa = [k |-> "Ca", pl |-> pl]], Now, "server") :
                     n \in 0..3, pos \in 1..4, pl \in {NoPl, Pl(0), Pl(1), Pl(2)} }
 TimeCases == { Case("time", pos - 1, [Chain(n) EXCEPT ![pos].nbDay = Now - 10, ![pos].naDay = Now + 10], day, "server") :
                  n \in 0..2, pos \in 1..4, day \in {Now - 400, Now - 11, Now - 9, Now, Now + 9, Now + 11, Now + 400} }
 
+(* windows that begin before 1950 or end after 2049 (GeneralizedTime), given with sub-second parts *)
+FarDays == { <<DaysFromCivil(1949, 12, 31), DaysFromCivil(2055, 6, 1)>>, <<Day0, DaysFromCivil(2050, 1, 1)>>, <<DaysFromCivil(1950, 1, 1), DaysFromCivil(2049, 12, 31)>> }
+WideChain(n) == [i \in DOMAIN Chain(n) |-> [Chain(n)[i] EXCEPT !.naDay = DaysFromCivil(2060, 1, 1)]]
+FarTimeCases == { Case("time", pos - 1, [WideChain(n) EXCEPT ![pos].nbDay = w[1], ![pos].naDay = w[2], ![pos].frac = fr], day, "server") :
+                    n \in 0..1, pos \in 1..3, w \in FarDays, fr \in {TRUE, FALSE}, day \in {Now, DaysFromCivil(2049, 12, 30), DaysFromCivil(2050, 1, 2)} }
 FlipBit(a, k) == [i \in 1..Len(a) |-> IF i = (k \div 8) + 1 THEN a[i] ^^ Pow2(7 - (k % 8)) ELSE a[i]]
 V4Net == <<10, 129, 2, 128>>
 V6Net == <<32, 1, 13, 184, 128, 0, 0, 0, 0, 0, 0, 0, 128, 0, 0, 1>>
@@ -68,7 +77,7 @@ KuSets == { <<>>, <<5>>, <<6>>, <<0, 5>>, <<0>>, <<0, 6>> }
 CertSignCases == { Case("certsign", pos - 1, [Chain(n) EXCEPT ![pos].ku = k], Now, "server") : n \in 0..2, pos \in 1..3, k \in KuSets }
 
 Wf(k) == k.pos + 1 <= Len(k.chain) /\ (k.grp \in {"caflag", "pathlen", "certsign", "nc"} => k.pos + 1 < Len(k.chain))
-Cases == { k \in OkCases \cup CaFlagCases \cup PathLenCases \cup TimeCases \cup NcDnsCases \cup NcIp4Cases \cup NcIp6Cases \cup NcMixCases
+Cases == { k \in OkCases \cup CaFlagCases \cup CaFlagBareCases \cup FarTimeCases \cup PathLenCases \cup TimeCases \cup NcDnsCases \cup NcIp4Cases \cup NcIp6Cases \cup NcMixCases
                   \cup EkuCases \cup CertSignCases : Wf(k) }
 
 Init == c \in Cases /\ phase = "built" /\ verdict = FALSE
